@@ -14,9 +14,12 @@ from pathlib import Path
 
 VERIF = Path(__file__).resolve().parent.parent
 SPEC = VERIF / "spec"
-WORK = VERIF / ".work"
-REPLAYS = VERIF / "replays"
-EVIDENCE = VERIF / "evidence"
+# VERIF_SANDBOX redirects everything a run writes (used when the checks are pointed at a scratch copy of
+# the repository, e.g. a seeded change, so that /verif/evidence keeps describing /repo itself)
+_OUT = Path(os.environ["VERIF_SANDBOX"]).resolve() if os.environ.get("VERIF_SANDBOX") else VERIF
+WORK = _OUT / ".work"
+REPLAYS = _OUT / "replays"
+EVIDENCE = _OUT / "evidence"
 REPO = Path(os.environ.get("VERIF_REPO", "/repo")).resolve()
 NCPU = min(16, os.cpu_count() or 4)
 
